@@ -62,6 +62,68 @@ def find_lazy_caches(ctx):
     return out
 
 
+def _is_value_type(t):
+    from .model import NUM, BOOL
+    if t in (NUM, BOOL):
+        return True
+    if isinstance(t, tuple) and t and t[0] == "seq":
+        return _is_value_type(t[1])
+    if isinstance(t, tuple) and t and t[0] == "tup":
+        return bool(t[1]) and all(_is_value_type(x) for x in t[1])
+    return t == "Box"
+
+
+def find_eager_snapshots(ctx, lazy=None):
+    """[(class K, mangled field, field as written, filler Fn)]: an instance field that stores a *value* (number, box)
+    obtained by querying mutable objects that the instance keeps (float(sub), sub.box(), abs(curve) ...): a snapshot of
+    derived state taken eagerly, e.g. in a setter.  It goes stale exactly like a lazily filled cache."""
+    lazy = {(c, m) for c, m, _, _ in (lazy if lazy is not None else find_lazy_caches(ctx))}
+    out = []
+    for q, fn in sorted(ctx.model.funcs.items()):
+        if not fn.cls or fn.kind not in ("method", "setter") or not fn.params or fn.name == "__new__":
+            continue
+        selfn = fn.params[0]
+        inf = ctx.typer.of(fn)
+        defs = {}
+        for n in ast.walk(fn.node):
+            if isinstance(n, ast.Assign):
+                for t in n.targets:
+                    for nm in ([t] if isinstance(t, ast.Name) else list(t.elts) if isinstance(t, (ast.Tuple, ast.List)) else []):
+                        if isinstance(nm, ast.Name):
+                            defs.setdefault(nm.id, []).append(n.value)
+            elif isinstance(n, (ast.For, ast.comprehension)):
+                for nm in ast.walk(n.target):
+                    if isinstance(nm, ast.Name):
+                        defs.setdefault(nm.id, []).append(n.iter)
+        for n in ast.walk(fn.node):
+            if not (isinstance(n, ast.Assign) and len(n.targets) == 1 and isinstance(n.targets[0], ast.Attribute)
+                    and isinstance(n.targets[0].value, ast.Name) and n.targets[0].value.id == selfn):
+                continue
+            f = n.targets[0].attr
+            mangled = f"_{fn.cls}{f}" if f.startswith("__") and not f.endswith("__") else f
+            if (fn.cls, mangled) in lazy or not _is_value_type(inf.typeof(n.value)):
+                continue
+            # does the value come from a query on a repository object?
+            seen, work, queried = set(), [n.value], False
+            while work and not queried:
+                e = work.pop()
+                for x in ast.walk(e):
+                    if isinstance(x, ast.Name) and x.id not in seen:
+                        seen.add(x.id)
+                        work += defs.get(x.id, [])
+                    if isinstance(x, ast.Call):
+                        tgs = inf.targets(x, ("call", "dunder"))
+                        if any(t.has_self and t.cls and t.mod in ("shape", "jordancurve", "curve") for t in tgs):
+                            queried = True
+                    if isinstance(x, ast.Attribute) and any(t.kind == "getter" and t.mod in ("shape", "jordancurve", "curve")
+                                                             for t in inf.targets(x, ("getter",))) \
+                            and _is_value_type(inf.typeof(x)):
+                        queried = True
+            if queried and (fn.cls, mangled) not in {(c, m) for c, m, _, _ in out}:
+                out.append((fn.cls, mangled, f, fn))
+    return out
+
+
 def cache_param(filler, fsrc):
     """name of the parameter of `filler` whose field `fsrc` is the cache"""
     for a in filler.node.args.posonlyargs + filler.node.args.args:
@@ -156,7 +218,11 @@ def filler_is_isometry_invariant(ctx, filler, fsrc):
                     for t in inf.targets(x):
                         called.add(t.qname)
             return bool(called) and called <= ISOMETRY_INVARIANT
-    return False
+    # eager snapshot (no cache test): every repository query the filler makes must be invariant
+    called = {t.qname for x in ast.walk(filler.node) for t in inf.targets(x, ("call", "dunder"))
+              if t.mod in ("shape", "jordancurve", "curve")}
+    invariant = {q for q in called if q in ISOMETRY_INVARIANT or q.rsplit(".", 1)[-1] in ("__float__", "__abs__", "__bool__")}
+    return bool(called) and called <= invariant
 
 
 def is_composite(ctx, cls):
@@ -191,7 +257,12 @@ class CacheCoherence:
         self.derived = derived_fields(ctx, cls) - {field_mangled} - cache_fields(ctx)
         self.kinds = affine.point_kinds(ctx)
         self.kmethods = {}
+        fam = []
         for k in [cls] + ctx.model.subclasses(cls):
+            for b in [k] + ctx.model.mro(k)[1:]:          # inherited methods act on instances of the class too
+                if b not in fam:
+                    fam.append(b)
+        for k in fam:
             for fn in list(ctx.model.methods[k].values()) + list(ctx.model.setters[k].values()):
                 if fn.has_self and fn.kind != "static":
                     self.kmethods[fn.qname] = fn
